@@ -184,15 +184,29 @@ Proof.
   - apply Hall. now right.
 Qed.
 
-Lemma sscan_step d : (forall d', d = S d' -> sscan_at d') -> sscan_at d.
+(* generalisation: every token has its own hide set; a token that expand keeps anyway needs no budget *)
+Definition keepable (x : htok) : Prop :=
+  tkind_eqb (hk x) KId = false \/ mem (ht x) (hh x) = true \/ slookup stb (ht x) = None.
+Definition all_ok (d : nat) (xs : list htok) : Prop :=
+  forall x, In x xs -> okh x = true /\ is_flh x = false /\ (keepable x \/ invS (hh x) d).
+Definition gscan_at (d : nat) : Prop :=
+  forall xs, all_ok d xs ->
+    exists n, forall f ys r, expandS stb f ys = Ok r ->
+      expandS stb (n + f) (xs ++ ys) = Ok (flat_map (ES d) xs ++ r).
+
+Lemma all_hs_all_ok hs d xs : all_hs hs xs -> invS hs d -> all_ok d xs.
 Proof.
-  intros IHd xs. induction xs as [|x xs IHx]; intros hs Hall Hinv.
+  intros Hall Hinv x Hx. destruct (Hall x Hx) as (H1 & H2 & H3). repeat split; try assumption. right. now rewrite H1.
+Qed.
+
+Lemma gscan_step d : (forall d', d = S d' -> gscan_at d') -> gscan_at d.
+Proof.
+  intros IHd xs. induction xs as [|x xs IHx]; intros Hall.
   - exists 0. intros f ys r H. exact H.
-  - assert (Hall' : all_hs hs xs) by (intros y Hy; apply Hall; now right).
-    destruct (Hall x (or_introl eq_refl)) as (Hhs & Hok & Hnfl).
-    destruct (IHx hs Hall' Hinv) as (n2 & H2).
+  - assert (Hall' : all_ok d xs) by (intros y Hy; apply Hall; now right).
+    destruct (Hall x (or_introl eq_refl)) as (Hok & Hnfl & Hki).
+    destruct (IHx Hall') as (n2 & H2).
     cbn [flat_map]. rewrite ES_eq.
-    (* the cases where the token is kept *)
     assert (Hkeep : (tkind_eqb (hk x) KId = false \/ mem (ht x) (hh x) = true \/ slookup stb (ht x) = None) ->
                     exists n, forall f ys r, expandS stb f ys = Ok r ->
                       expandS stb (n + f) ((x :: xs) ++ ys) = Ok (([x] ++ flat_map (ES d) xs) ++ r)).
@@ -204,23 +218,25 @@ Proof.
     destruct mac as [body|ps va fbody].
     2:{ unfold is_flh in Hnfl. rewrite Hid, Hl in Hnfl. discriminate. }
     pose proof (HSobj _ _ Hl) as Hb2. pose proof (okb2_okb _ Hb2) as Hb.
-    rewrite Hhs in Hm.
+    assert (Hinv : invS (hh x) d).
+    { destruct Hki as [[Hc|[Hc|Hc]]|Hc]; [congruence|congruence|congruence|exact Hc]. }
     destruct d as [|d'].
-    { rewrite (pigeonS hs _ _ Hinv Hl) in Hm. discriminate. }
-    assert (Hinv' : invS (ht x :: hs) d').
+    { rewrite (pigeonS (hh x) _ _ Hinv Hl) in Hm. discriminate. }
+    assert (Hinv' : invS (ht x :: hh x) d').
     { apply invS_push; [assumption|assumption|]. eapply slookup_In, Hl. }
-    rewrite Hhs.
-    destruct (IHd d' eq_refl (hset_w (hw x) (map (lift (ht x :: hs)) body)) (ht x :: hs)
-                  (all_hs_body _ _ _ Hb2) Hinv') as (n1 & H1).
+    destruct (IHd d' eq_refl (hset_w (hw x) (map (lift (ht x :: hh x)) body))
+                  (all_hs_all_ok _ _ _ (all_hs_body _ _ _ Hb2) Hinv')) as (n1 & H1).
     exists (S (n1 + n2)). intros f ys r Hr.
     replace (S (n1 + n2) + f) with (S (n1 + (n2 + f))) by lia. cbn [app].
     rewrite (X_macro _ x (xs ++ ys) body); try assumption.
-    2:{ now rewrite Hhs. }
-    rewrite Hhs. rewrite (H1 (n2 + f) (xs ++ ys) _ (H2 f ys r Hr)). now rewrite app_assoc.
+    rewrite (H1 (n2 + f) (xs ++ ys) _ (H2 f ys r Hr)). now rewrite app_assoc.
 Qed.
 
+Lemma gscan_all d : gscan_at d.
+Proof. induction d as [|d IH]; apply gscan_step; intros d' H; [discriminate|]. injection H as <-. exact IH. Qed.
+
 Lemma sscan_all d : sscan_at d.
-Proof. induction d as [|d IH]; apply sscan_step; intros d' H; [discriminate|]. injection H as <-. exact IH. Qed.
+Proof. intros xs hs Hall Hinv. apply gscan_all. eapply all_hs_all_ok; eassumption. Qed.
 
 (* ---------- function-like invocation with flat arguments ---------- *)
 Definition hplain (t : htok) : bool :=
@@ -282,19 +298,20 @@ Qed.
 (* subst on a function-like replacement list without # and ##, every argument inert *)
 Definition nohash (t : btok) : bool := negb (String.eqb (bt t) "#") && negb (String.eqb (bt t) "##").
 
-Fixpoint subst_out (ap : list (string * list htok)) (body : list btok) : list htok :=
+Fixpoint subst_out (g : list htok -> list htok) (ap : list (string * list htok)) (body : list btok) : list htok :=
   match body with
   | [] => []
   | t :: r => match param ap t with
-              | Some a => hset_w (bw t) a ++ subst_out ap r
-              | None => lift [] t :: subst_out ap r
+              | Some a => hset_w (bw t) (g a) ++ subst_out g ap r
+              | None => lift [] t :: subst_out g ap r
               end
   end.
 
-Lemma subst_funlike ex ap body : forall os,
+(* [g] = what complete macro replacement makes of an argument *)
+Lemma subst_funlike ex g ap body : forall os,
   forallb nohash body = true ->
-  (forall t a, In t body -> param ap t = Some a -> ex a = Ok a) ->
-  subst ex true ap body os = Ok (os ++ subst_out ap body).
+  (forall t a, In t body -> param ap t = Some a -> ex a = Ok (g a)) ->
+  subst ex true ap body os = Ok (os ++ subst_out g ap body).
 Proof.
   induction body as [|t r IH]; intros os Hn Hex; cbn [subst subst_out].
   - now rewrite app_nil_r.
@@ -303,7 +320,7 @@ Proof.
     replace (b_is KOp "#" t) with false by (unfold b_is; now rewrite H1, andb_false_r).
     replace (b_is KOp "##" t) with false by (unfold b_is; now rewrite H2, andb_false_r).
     cbn [andb].
-    assert (Hex' : forall t0 a, In t0 r -> param ap t0 = Some a -> ex a = Ok a).
+    assert (Hex' : forall t0 a, In t0 r -> param ap t0 = Some a -> ex a = Ok (g a)).
     { intros t0 a0 Hi. apply Hex. now right. }
     assert (Hnc : match r with c :: _ => b_is KOp "##" c | [] => false end = false).
     { destruct r as [|c r']; [reflexivity|]. cbn [forallb] in Hr. apply andb_true_iff in Hr. destruct Hr as [Hc _].
